@@ -7,6 +7,7 @@
 import PopsModel.Driver.Util
 import PopsModel.Model.KernRadial
 import PopsModel.Model.KernElig
+import PopsModel.Model.DetNum
 namespace Pops.Driver.KernEng
 open Pops Pops.Driver
 
@@ -479,7 +480,26 @@ def handleRandom (inp obs : List String) : String :=
       if r ≠ ic then s!"PROPFAIL C13 inverse_transform random()={r} but icdf(u)={ic} for u={uf}"
       else if calls ≠ "calls=1" then s!"PROPFAIL C13 inverse_transform random() consumed {calls} engine values"
       else match floatOrErr? r with
-        | some o => cmpFE "kern.random" (lawRandom TFf law scf shf uf) o 1e-6
+        | some o =>
+          -- C13: the distance follows the density of the CONFIGURED law: the value drawn for the uniform u is the
+          -- u-quantile of that law with the configured scale and shape, i.e. cdf(r) = u (judged with the cdf of the
+          -- density, not with the quantile formula of the code; power law and exponential power are the region of F21,
+          -- where the coded quantile is not the inverse of the coded density's cdf)
+          let cdfFail : Option String :=
+            match o with
+            | .ok rv =>
+              let dlaw : Option Pops.Det.Law := match law with
+                | .hyperbolicSecant => some .hypsec | .logistic => some .logistic
+                | _ => none   -- power law / exponential power: F21; the other laws draw through std samplers, not random()
+              if dlaw.isNone || rv.isNaN || rv.isInf then none
+              else
+                let cv := Pops.Det.Num.lawCdf dlaw.get! scf shf rv
+                if Float.abs (cv - uf) ≤ 1e-7 then none
+                else some s!"PROPFAIL C13 distance_law random() = {rv} for u = {uf}, but the cdf of the configured law (scale {scf}, shape {shf}) there is {cv}"
+            | .error _ => none
+          match cdfFail with
+          | some msg => msg
+          | none => cmpFE "kern.random" (lawRandom TFf law scf shf uf) o 1e-6
         | none => "BADLINE"
     | _, _, _, _, _, _ => "BADLINE"
   | _, _ => "BADLINE"
